@@ -41,7 +41,7 @@ def generate(streams, tier):
     rw = streams.s("workload")
     ops = []
     for _ in range(rw.randint(2, 6)):
-        k = weighted(rw, [("do", 3), ("query", 6), ("backdoor", 3), ("all_backdoor", 2), ("frontdoor", 1), ("minimal", 1), ("refused", 1)])
+        k = weighted(rw, [("do", 3), ("query", 6), ("backdoor", 3), ("all_backdoor", 2), ("frontdoor", 1), ("minimal", 2), ("refused", 1)])
         op = {"op": k, "pick": rw.randrange(10**6)}
         if k == "do":
             op["nodes"] = rw.sample(range(n), rw.randint(1, min(2, n)))
@@ -55,6 +55,11 @@ def generate(streams, tier):
             op["ny"] = rw.choice([1, 1, 2])
         else:
             x, y = rw.sample(range(n), 2)
+            if k == "minimal":
+                # the question is only put for an outcome that descends from the treatment: pick such a pair when there is one
+                pairs = [(a, b) for a in range(n) for b in W.descendants(world, [a]) if b != a]
+                if pairs:
+                    x, y = rw.choice(sorted(pairs))
             op["x"], op["y"] = x, y
         ops.append(op)
     if motif and motif.get("xy"):
